@@ -62,7 +62,6 @@ void GMGPolar::multigrid_W_Cycle(const int level_depth, Vector<double>& solution
 
         /* Step 2: Set starting error to zero. */
         assign(next_level.residual(), 0.0);
-        VERIF_OP1("Zero", level_depth + 1, next_level.residual());
 
         /* Step 3: Solve for the error by recursively calling the multigrid cycle. */
         multigrid_W_Cycle(level_depth + 1, next_level.residual(), next_level.error_correction(), next_level.solution());
@@ -74,7 +73,6 @@ void GMGPolar::multigrid_W_Cycle(const int level_depth, Vector<double>& solution
 
     /* Compute the corrected approximation: u = u + error */
     add(solution, residual);
-    VERIF_OP2("Add", level_depth, solution, residual);
 
     auto start_MGC_postSmoothing = std::chrono::high_resolution_clock::now();
 
